@@ -162,6 +162,10 @@ def _traverse_and_extract(
     if "always" in node:
         _extract_from_transition(node["always"], actions, guards)
 
+    # 🏁 Process the state-level "onDone" transition
+    if "onDone" in node:
+        _extract_from_transition(node["onDone"], actions, guards)
+
     # ⏳ Process delayed "after" transitions
     if "after" in node and isinstance(node["after"], dict):
         for transition_data in node["after"].values():
